@@ -546,8 +546,8 @@ func rPoint(r *zv.Rng, withY bool) *zjson.ECPoint {
 }
 
 // structured sub-ops: name -> runner on an Rng derived from the seed in the line
-var structs = map[string]func(r *zv.Rng) (string, string){
-	"s-dhparams": func(r *zv.Rng) (string, string) {
+var structs = map[string]func(r *zv.Rng, conv string) (string, string){
+	"s-dhparams": func(r *zv.Rng, conv string) (string, string) {
 		v := &zjson.DHParams{Prime: rBig(r), Generator: rBig(r), ServerPublic: rBigOpt(r), ServerPrivate: rBigOpt(r), ClientPublic: rBigOpt(r), ClientPrivate: rBigOpt(r), SessionKey: rBigOpt(r)}
 		if r.Chance(5) {
 			v.Prime = nil
@@ -555,20 +555,20 @@ var structs = map[string]func(r *zv.Rng) (string, string){
 		if r.Chance(5) {
 			v.Generator = nil
 		}
-		return rt(v, func(_ []byte, a, b *zjson.DHParams) string {
+		return rtc(conv, v, func(_ []byte, a, b *zjson.DHParams) string {
 			return first(bigEq("prime", a.Prime, b.Prime, true), bigEq("generator", a.Generator, b.Generator, true),
 				bigEq("server_public", a.ServerPublic, b.ServerPublic, false), bigEq("server_private", a.ServerPrivate, b.ServerPrivate, false),
 				bigEq("client_public", a.ClientPublic, b.ClientPublic, false), bigEq("client_private", a.ClientPrivate, b.ClientPrivate, false),
 				bigEq("session_key", a.SessionKey, b.SessionKey, false))
 		})
 	},
-	"s-ecpoint": func(r *zv.Rng) (string, string) {
-		return rt(rPoint(r, true), func(_ []byte, a, b *zjson.ECPoint) string { return pointEq("point", a, b) })
+	"s-ecpoint": func(r *zv.Rng, conv string) (string, string) {
+		return rtc(conv, rPoint(r, true), func(_ []byte, a, b *zjson.ECPoint) string { return pointEq("point", a, b) })
 	},
-	"s-ecpoint-noy": func(r *zv.Rng) (string, string) {
-		return rt(rPoint(r, false), func(_ []byte, a, b *zjson.ECPoint) string { return pointEq("point", a, b) })
+	"s-ecpoint-noy": func(r *zv.Rng, conv string) (string, string) {
+		return rtc(conv, rPoint(r, false), func(_ []byte, a, b *zjson.ECPoint) string { return pointEq("point", a, b) })
 	},
-	"s-ecdhparams": func(r *zv.Rng) (string, string) {
+	"s-ecdhparams": func(r *zv.Rng, conv string) (string, string) {
 		v := &zjson.ECDHParams{TLSCurveID: zjson.TLSCurveID(r.Intn(65536))}
 		if r.Chance(20) {
 			v.TLSCurveID = 0
@@ -587,7 +587,7 @@ var structs = map[string]func(r *zv.Rng) (string, string){
 			b := rBytes(r, 48)
 			v.ClientPrivate = &zjson.ECDHPrivateParams{Value: b, Length: r.Intn(3) * len(b)}
 		}
-		return rt(v, func(_ []byte, a, b *zjson.ECDHParams) string {
+		return rtc(conv, v, func(_ []byte, a, b *zjson.ECDHParams) string {
 			if a.TLSCurveID != b.TLSCurveID {
 				return fmt.Sprintf("curve_id %d became %d", a.TLSCurveID, b.TLSCurveID)
 			}
@@ -595,7 +595,7 @@ var structs = map[string]func(r *zv.Rng) (string, string){
 				privEq("server_private", a.ServerPrivate, b.ServerPrivate), privEq("client_private", a.ClientPrivate, b.ClientPrivate))
 		})
 	},
-	"s-rsapublickey": func(r *zv.Rng) (string, string) {
+	"s-rsapublickey": func(r *zv.Rng, conv string) (string, string) {
 		v := &zjson.RSAPublicKey{}
 		if !r.Chance(10) {
 			v.PublicKey = &rsa.PublicKey{N: rBig(r), E: rBig(r)}
@@ -603,7 +603,7 @@ var structs = map[string]func(r *zv.Rng) (string, string){
 				v.E = big.NewInt(65537)
 			}
 		}
-		return rt(v, func(_ []byte, a, b *zjson.RSAPublicKey) string {
+		return rtc(conv, v, func(_ []byte, a, b *zjson.RSAPublicKey) string {
 			// a nil key encodes as the zero key (modulus 0, exponent 0)
 			an, ae, bn, be := new(big.Int), new(big.Int), new(big.Int), new(big.Int)
 			if a.PublicKey != nil {
@@ -615,73 +615,73 @@ var structs = map[string]func(r *zv.Rng) (string, string){
 			return first(bigEq("modulus", an, bn, true), bigEq("exponent", ae, be, true))
 		})
 	},
-	"s-rsaclientparams": func(r *zv.Rng) (string, string) {
+	"s-rsaclientparams": func(r *zv.Rng, conv string) (string, string) {
 		v := &zjson.RSAClientParams{Length: uint16(r.Intn(65536)), EncryptedPMS: rBytes(r, 64)}
 		if r.Chance(20) {
 			v.Length = 0
 		}
-		return rt(v, func(_ []byte, a, b *zjson.RSAClientParams) string {
+		return rtc(conv, v, func(_ []byte, a, b *zjson.RSAClientParams) string {
 			if a.Length != b.Length {
 				return "length differs"
 			}
 			return bytesEq("encrypted_pre_master_secret", a.EncryptedPMS, b.EncryptedPMS)
 		})
 	},
-	"s-generalnames": func(r *zv.Rng) (string, string) {
+	"s-generalnames": func(r *zv.Rng, conv string) (string, string) {
 		v := rGeneralNames(r)
-		return rt(&v, generalNamesEq)
+		return rtc(conv, &v, generalNamesEq)
 	},
-	"s-nameconstraints": func(r *zv.Rng) (string, string) {
+	"s-nameconstraints": func(r *zv.Rng, conv string) (string, string) {
 		v := rNameConstraints(r)
-		return rt(&v, nameConstraintsEq)
+		return rtc(conv, &v, nameConstraintsEq)
 	},
-	"s-subtreeip-cidr": func(r *zv.Rng) (string, string) {
+	"s-subtreeip-cidr": func(r *zv.Rng, conv string) (string, string) {
 		v := rSubtreeIP(r, true)
-		return rt(&v, func(_ []byte, a, b *x509.GeneralSubtreeIP) string { return ipNetEq("cidr", a.Data, b.Data) })
+		return rtc(conv, &v, func(_ []byte, a, b *x509.GeneralSubtreeIP) string { return ipNetEq("cidr", a.Data, b.Data) })
 	},
-	"s-subtreeip-noncidr": func(r *zv.Rng) (string, string) {
+	"s-subtreeip-noncidr": func(r *zv.Rng, conv string) (string, string) {
 		v := rSubtreeIP(r, false)
-		return rt(&v, func(_ []byte, a, b *x509.GeneralSubtreeIP) string { return ipNetEq("cidr", a.Data, b.Data) })
+		return rtc(conv, &v, func(_ []byte, a, b *x509.GeneralSubtreeIP) string { return ipNetEq("cidr", a.Data, b.Data) })
 	},
-	"s-name": func(r *zv.Rng) (string, string) {
+	"s-name": func(r *zv.Rng, conv string) (string, string) {
 		v := rName(r)
-		return rt(&v, func(js []byte, _, b *pkix.Name) string { return nameEq("name", js, b) })
+		return rtc(conv, &v, func(js []byte, _, b *pkix.Name) string { return nameEq("name", js, b) })
 	},
-	"s-atv": func(r *zv.Rng) (string, string) {
+	"s-atv": func(r *zv.Rng, conv string) (string, string) {
 		v := &pkix.AttributeTypeAndValue{Type: rOID(r), Value: rStr(r)}
 		if r.Chance(10) {
 			v.Type = nil
 		}
-		return rt(v, func(_ []byte, a, b *pkix.AttributeTypeAndValue) string {
+		return rtc(conv, v, func(_ []byte, a, b *pkix.AttributeTypeAndValue) string {
 			if a.Value != b.Value {
 				return fmt.Sprintf("value %q became %q", a.Value, b.Value)
 			}
 			return oidEq("type", a.Type, b.Type)
 		})
 	},
-	"s-extension": func(r *zv.Rng) (string, string) {
+	"s-extension": func(r *zv.Rng, conv string) (string, string) {
 		v := &pkix.Extension{Id: rOID(r), Critical: r.Bool(), Value: rBytes(r, 40)}
-		return rt(v, func(_ []byte, a, b *pkix.Extension) string {
+		return rtc(conv, v, func(_ []byte, a, b *pkix.Extension) string {
 			if a.Critical != b.Critical {
 				return "critical differs"
 			}
 			return first(oidEq("id", a.Id, b.Id), bytesEq("value", a.Value, b.Value))
 		})
 	},
-	"s-othername": func(r *zv.Rng) (string, string) {
+	"s-othername": func(r *zv.Rng, conv string) (string, string) {
 		v := &pkix.OtherName{TypeID: rOID(r), Value: asn1.RawValue{Class: asn1.ClassContextSpecific, IsCompound: true, Bytes: rBytes(r, 40)}}
-		return rt(v, func(_ []byte, a, b *pkix.OtherName) string {
+		return rtc(conv, v, func(_ []byte, a, b *pkix.OtherName) string {
 			return first(oidEq("id", a.TypeID, b.TypeID), bytesEq("value", a.Value.Bytes, b.Value.Bytes))
 		})
 	},
-	"s-auxoid": func(r *zv.Rng) (string, string) {
+	"s-auxoid": func(r *zv.Rng, conv string) (string, string) {
 		v := pkix.AuxOID(rOID(r))
 		if r.Chance(10) {
 			v = v[:1]
 		}
-		return rt(&v, func(_ []byte, a, b *pkix.AuxOID) string { return oidEq("oid", *a, *b) })
+		return rtc(conv, &v, func(_ []byte, a, b *pkix.AuxOID) string { return oidEq("oid", *a, *b) })
 	},
-	"s-fingerprint": func(r *zv.Rng) (string, string) {
+	"s-fingerprint": func(r *zv.Rng, conv string) (string, string) {
 		var v x509.CertificateFingerprint
 		switch r.Intn(5) {
 		case 0:
@@ -695,29 +695,29 @@ var structs = map[string]func(r *zv.Rng) (string, string){
 		default:
 			v = r.Bytes(1 + r.Intn(40))
 		}
-		return rt(&v, func(_ []byte, a, b *x509.CertificateFingerprint) string { return bytesEq("fingerprint", *a, *b) })
+		return rtc(conv, &v, func(_ []byte, a, b *x509.CertificateFingerprint) string { return bytesEq("fingerprint", *a, *b) })
 	},
-	"s-digitallysigned": func(r *zv.Rng) (string, string) {
+	"s-digitallysigned": func(r *zv.Rng, conv string) (string, string) {
 		v := &ct.DigitallySigned{HashAlgorithm: ct.HashAlgorithm(r.Intn(256)), SignatureAlgorithm: ct.SignatureAlgorithm(r.Intn(256)), Signature: rBytes(r, 80)}
 		if r.Chance(2) {
 			v.Signature = r.Bytes(65535)
 		}
-		return rt(v, func(_ []byte, a, b *ct.DigitallySigned) string {
+		return rtc(conv, v, func(_ []byte, a, b *ct.DigitallySigned) string {
 			if a.HashAlgorithm != b.HashAlgorithm || a.SignatureAlgorithm != b.SignatureAlgorithm {
 				return "algorithms differ"
 			}
 			return bytesEq("signature", a.Signature, b.Signature)
 		})
 	},
-	"s-sha256hash": func(r *zv.Rng) (string, string) {
+	"s-sha256hash": func(r *zv.Rng, conv string) (string, string) {
 		var v ct.SHA256Hash
 		copy(v[:], r.Bytes(32))
-		return rt(&v, func(_ []byte, a, b *ct.SHA256Hash) string { return bytesEq("hash", a[:], b[:]) })
+		return rtc(conv, &v, func(_ []byte, a, b *ct.SHA256Hash) string { return bytesEq("hash", a[:], b[:]) })
 	},
-	"s-keyshare": func(r *zv.Rng) (string, string) {
+	"s-keyshare": func(r *zv.Rng, conv string) (string, string) {
 		c := tls.CurveID(r.Intn(65536))
 		v := &tls.KeyShareExtension{KeyExchange: &c}
-		return rt(v, func(_ []byte, a, b *tls.KeyShareExtension) string {
+		return rtc(conv, v, func(_ []byte, a, b *tls.KeyShareExtension) string {
 			if b.KeyExchange == nil || *a.KeyExchange != *b.KeyExchange {
 				return "key exchange group differs"
 			}
